@@ -399,7 +399,9 @@ class Engine:
     def __init__(self, max_paths=20000, timeout_ms=10000, deadline=None):
         self.deadline = deadline
         self.solver = z3.Solver()
-        self.solver.set('timeout', timeout_ms)
+        # no per-query timeout: z3 starts a timer thread per check() when one is set, which dominates the cost of
+        # thousands of tiny queries; the program budget (deadline) bounds the run instead
+        self.timeout_ms = timeout_ms
         self.max_paths = max_paths
         self.queries = {}
         self.solver_s = 0.0
